@@ -126,11 +126,20 @@ def c11_2(ctx, ss):
     st = stores[0]
     lps = enclosing(ff, st, (ast.For,))
     t = st.targets[0]
-    if not lps and isinstance(t.slice, ast.Slice) and t.slice.lower is None and t.slice.upper is None and t.slice.step is None:
-        # whole-list form: L[:] = [recursively_replace(x) if x in self.decays else x for x in L]
+    whole_slice = isinstance(t.slice, ast.Slice) and t.slice.lower is None and t.slice.upper is None and t.slice.step is None
+    import copy as _copy
+    t_load = _copy.deepcopy(t)
+    t_load.ctx = ast.Load()
+    whole_key = isinstance(st.value, ast.ListComp) and len(st.value.generators) == 1 and not whole_slice \
+        and flow.text(st.value.generators[0].iter) == f"{flow.text(t.value)}[{txt(t.slice)}]"         # D['fs'] = [… for x in <the same D['fs']>]
+    if not lps and (whole_slice or whole_key):
+        # whole-list form: L[:] = [recursively_replace(x) if x in self.decays else x for x in L]   (or D['fs'] = [… for x in D['fs']])
         v = st.value
-        okc = isinstance(v, ast.ListComp) and len(v.generators) == 1 and not v.generators[0].ifs and txt(v.generators[0].iter) == txt(t.value) \
+        same_src = (txt(v.generators[0].iter) == txt(t.value)) if whole_slice else whole_key
+        okc = isinstance(v, ast.ListComp) and len(v.generators) == 1 and not v.generators[0].ifs and same_src \
             and isinstance(v.generators[0].target, ast.Name) and isinstance(v.elt, ast.IfExp)
+        if whole_key:
+            t = ast.Subscript(value=t, slice=ast.Constant(value="__whole__"), ctx=ast.Load())      # frame check: the list is t.value = D['fs']
         why_ = "the replacement is not an element-wise map over the whole list"
         if okc:
             el = v.generators[0].target.id
@@ -186,6 +195,8 @@ def _c11_2_loop(ctx, ff, flow, k, st, t, lp):
 def _c11_2_frame(ctx, ss, ff, flow, t):
     # the list is the mode's own fs and the mode is appended once, result keyed by mother
     lst = flow.expand(t.value)
+    if isinstance(t.slice, ast.Constant) and t.slice.value == "__whole__" and isinstance(t.value, ast.Subscript):
+        lst = ast.Subscript(value=flow.expand(t.value.value), slice=t.value.slice, ctx=ast.Load())
     ok_src = txt(lst) == "self.decays[mother].to_dict()['fs']"
     rets = returns(ff)
     ok_ret = len(rets) == 1 and isinstance(rets[0].value, ast.Dict) and len(rets[0].value.keys) == 1 and txt(rets[0].value.keys[0]) == "mother"
